@@ -514,6 +514,11 @@ impl DdlExecutor {
                 self.execute_alter_table(&instr)
             }
             BoundStatement::DropTable(drop) => {
+                // DROP TABLE IF EXISTS on a missing table binds to no object id; there is nothing
+                // to drop (the instruction would otherwise fall back to object id 0, a real table).
+                if drop.table_id.is_none() && drop.if_exists {
+                    return Ok(DdlResult::NoOp);
+                }
                 let instr = DropTableInstr::from(drop);
                 self.execute_drop_table(&instr)
             }
